@@ -33,7 +33,7 @@ def fname(f):
     return getattr(f, "__name__", None) or getattr(getattr(f, "py_func", None), "__name__", "?")
 
 
-def regen(ctx=None, parts=("constants", "registry", "knn", "seeded")):
+def regen(ctx=None, parts=("constants", "registry", "knn", "seeded", "distsrc")):
     """rewrite the requested Generated files from the live package; returns True if anything changed"""
     changed = []
     if "constants" in parts:
@@ -44,9 +44,17 @@ def regen(ctx=None, parts=("constants", "registry", "knn", "seeded")):
         changed.append(("KnnDecision", regen_knn_decision()))
     if "seeded" in parts:
         changed.append(("Seeded", regen_seeded()))
+    if "distsrc" in parts:
+        import translate
+        ch, rep = translate.regen_dist_src(LEAN, write_if_changed)
+        changed.append(("DistSrc", ch))
+        bad = {k: v for k, v in rep.items() if v != "ok"}
+        if ctx is not None:
+            ctx.notes.append(f"translate: {len(rep) - len(bad)} of {len(rep)} kernels of umap/distances.py translated"
+                             + ("; NOT translated: " + "; ".join(f"{k} ({v})" for k, v in bad.items()) if bad else ""))
     write_if_changed(os.path.join(LEAN, "Generated.lean"),
                      "-- root of the Generated library (rewritten from the live /repo by harness/regen.py)\n"
-                     "import Generated.Constants\nimport Generated.Registry\nimport Generated.KnnDecision\nimport Generated.Seeded\n")
+                     "import Generated.Constants\nimport Generated.Registry\nimport Generated.KnnDecision\nimport Generated.Seeded\nimport Generated.DistSrc\n")
     if ctx is not None:
         ctx.notes.append("regen: " + ", ".join(f"{n} changed={c}" for n, c in changed))
     return any(c for _, c in changed)
